@@ -547,3 +547,30 @@ def rule_source_io(rep: Report, rid="C16.src") -> None:
         and is_const(src["mediaType"][0], "text/x.cucumber.gherkin+plain")
     rep.ob("C17.source", "the source envelope is {uri: path, data: whole file text unchanged, mediaType: Gherkin plain}", ok, **kw,
            expected="{'source': {'uri': path, 'data': open(...).read(), 'mediaType': 'text/x.cucumber.gherkin+plain'}}", found=fmt(rv, I))
+
+
+def rule_token(rep: Report, rid="C18.token") -> None:
+    """Token: eof() is 'no line'; the constructor keeps the line and the location object it is given."""
+    I, fi, tree, rv, st = _run("gherkin.token.Token.eof")
+    rep.used_file(fi.file)
+    rep.used_function(fi.qualname)
+    selft = ("param", fi.params()[0])
+    line = ("attr", selft, "line")
+    forms = [mk_not(line), ("cmp", "Is", line, NONE), ("cmp", "Eq", line, const(""))]
+    # the scanner's EOF token carries the empty string read at end of input, so only falsiness is a correct test
+    rep.ob(rid, "Token.eof() is true exactly for the token without a line (the scanner's end-of-input token)", rv == forms[0],
+           file=fi.file, line=fi.node.lineno, function=fi.qualname, expected="not self.line", found=fmt(rv, I))
+    I, fi, tree, rv, st = _run("gherkin.token.Token.__init__")
+    rep.used_function(fi.qualname)
+    p = fi.params()
+    selft = ("param", p[0])
+    ok = st.ext.get((selft, "line")) == ("param", p[1]) and st.ext.get((selft, "location")) == ("param", p[2])
+    rep.ob(rid, "a token keeps the line and the location it was created with", ok, file=fi.file, line=fi.node.lineno, function=fi.qualname,
+           expected="self.line = gherkin_line; self.location = location", found={k[1]: fmt(v, I) for k, v in st.ext.items()})
+    I, fi, tree, rv, st = _run("gherkin.token.Token.token_value")
+    rep.used_function(fi.qualname)
+    selft = ("param", fi.params()[0])
+    line = ("attr", selft, "line")
+    want = ("cond", line, ("attr", line, N.TRIMMED), const("EOF"))
+    rep.ob(rid, "a token's printable value is 'EOF' or its left-trimmed line", rv == want, file=fi.file, line=fi.node.lineno, function=fi.qualname,
+           expected=fmt(want, I), found=fmt(rv, I))
